@@ -1,13 +1,15 @@
 import IV.Lemmas.TextFormats
 import IV.Lemmas.TextFormats2
+import IV.Lemmas.TextFormatsExt
 import IV.Gen.Matchers
 import IV.Gen.IniChars
 /-!
 C15 — shared text-format helpers recover the data that was rendered.
 
 Every theorem is about the executable model `IV.TextFormats` of insights/parsers/__init__.py
-(`get_active_lines`, `split_kv_pairs`, `calc_offset`, `parse_fixed_table`, `parse_delimited_table`,
-`keyword_search`) and of the dictionary view `IniConfigFile` builds over the parsed INI tree, for ALL
+(`get_active_lines`, `optlist_to_dict`, `split_kv_pairs`, `unsplit_lines`, `calc_offset`, `parse_fixed_table`,
+`parse_delimited_table`, `keyword_search`) and of the dictionary view `IniConfigFile` builds over the parsed INI tree
+(with its write accessor `set`), for ALL
 documents of the stated shape (no bound on the number of lines, columns, cells or characters).
 -/
 namespace IV.TextFormats
@@ -823,5 +825,234 @@ theorem ini_readback_full_false : ¬ IniReadbackFull := by
     · trivial) (by decide)
   rw [ini_indented_comment_witness.1, ini_indented_comment_witness.2] at this
   revert this; decide
+
+/-! ### unsplit_lines (round 10) -/
+
+/-- Round trip: logical lines, each written as any number of pieces followed by the continuation character `c` and
+    blanks and then a last physical line that does not end in `c`, are recombined exactly: the pieces come back
+    untouched (with or without `c`, as `keep_cont_char` says), only trailing white space of the last physical line is
+    dropped — one output line per logical line, in order, for any number of lines and pieces. -/
+theorem unsplit_roundtrip (c : Char) (hc : isSpace c = false) (keep : Bool) (doc : List Logical)
+    (h : ∀ lg ∈ doc, endsWith [c] (rstrip lg.last) = false) :
+    unsplitLines (renderLogicals c doc) [c] keep = doc.map (Logical.joined c keep) := by
+  have := unsplitGo_doc c hc keep doc h []
+  simpa [unsplitLines, unsplitGo] using this
+
+example : unsplitLines (renderLogicals '\\' [⟨[("Line one ".toList, 0), ("  part 2".toList, 2)], " end  ".toList⟩, ⟨[], "Line two".toList⟩])
+      ['\\'] false = ["Line one   part 2 end".toList, "Line two".toList] := by decide
+
+/-- A document that ENDS inside a continuation loses nothing: the pieces collected so far are yielded as the last line. -/
+theorem unsplit_trailing_continuation (c : Char) (hc : isSpace c = false) (keep : Bool) (doc : List Logical)
+    (h : ∀ lg ∈ doc, endsWith [c] (rstrip lg.last) = false) (ps : List (Str × Nat)) (hps : ps ≠ []) :
+    unsplitLines (renderLogicals c doc ++ renderParts c ps) [c] keep
+      = doc.map (Logical.joined c keep) ++ [joinedParts c keep ps] := by
+  have h1 := unsplitGo_doc c hc keep doc h (renderParts c ps)
+  have h2 := unsplitGo_parts c hc keep ps [] []
+  simp only [List.append_nil, List.nil_append] at h2
+  have hne : (keptParts c keep ps).isEmpty = false := by
+    cases ps with
+    | nil => exact absurd rfl hps
+    | cons p ps => simp [keptParts]
+  simp only [unsplitLines, h1, h2, unsplitGo, hne, joinedParts_eq]
+  simp
+
+example : unsplitLines (renderLogicals '\\' [⟨[], "a".toList⟩] ++ renderParts '\\' [("".toList, 0)]) ['\\'] false
+    = ["a".toList, "".toList] := by decide
+
+/-! ### optlist_to_dict (round 10) -/
+
+/-- Round trip: options joined by any non-empty separator string `d` that occurs in none of them (`sepFree`), a flag
+    written as its name, a key/value option as padded key, `kv`, value: the result is the last-wins map of the options
+    in order of first occurrence, flags carrying `True` (`none`), values coming back exactly (with `strip_quotes`: without
+    their matching outer quotes).  With `strip_quotes` the statement needs every value to be non-empty, see
+    `optlist_empty_value_witness`. -/
+theorem optlist_roundtrip_partial (d : Str) (hd : d ≠ []) (kv : Char) (sq : Bool) (items : List OptItem) (hne : items ≠ [])
+    (hit : ∀ it ∈ items, OptItemOk kv sq it) (hsep : ∀ it ∈ items, sepFree d (renderOptItem kv it) = true) :
+    optlistToDict (joinStr d (items.map (renderOptItem kv))) d (some [kv]) sq = .ok (fromPairs (items.map (optPairSq sq))) := by
+  have hd' : d.isEmpty = false := by cases d with
+    | nil => exact absurd rfl hd
+    | cons _ _ => rfl
+  have hsplit := splitSep_joinStr d hd (items.map (renderOptItem kv)) none (by simpa using hne)
+    (by intro c hc; simp only [List.mem_map] at hc; obtain ⟨it, hi, rfl⟩ := hc; exact hsep it hi) rfl
+  simp only [optlistToDict, hd', Bool.false_eq_true, if_false, hsplit, mapM_makeKv kv sq items hit]
+  rfl
+
+example : optlistToDict "rw, rsize = \"32 k\", ro, rw".toList ", ".toList (some ['=']) true
+    = .ok [("rw".toList, none), ("rsize".toList, some " \"32 k\"".toList), ("ro".toList, none)] := by decide
+
+/-- the full statement: also with `strip_quotes` and empty values -/
+def OptlistRoundtripFull : Prop :=
+  ∀ (d : Str) (kv : Char) (sq : Bool) (items : List OptItem), d ≠ [] → items ≠ [] →
+    (∀ it ∈ items, OptItemOk kv false it) → (∀ it ∈ items, sepFree d (renderOptItem kv it) = true) →
+    optlistToDict (joinStr d (items.map (renderOptItem kv))) d (some [kv]) sq = .ok (fromPairs (items.map (optPairSq sq)))
+
+/-- known finding optlist-empty-value-strip-quotes: `optlist_to_dict('rw,k=', strip_quotes=True)` raises IndexError -/
+theorem optlist_empty_value_witness :
+    optlistToDict "rw,k=".toList ",".toList (some ['=']) true = .error .indexError ∧
+    optlistToDict "rw,k=".toList ",".toList (some ['=']) false = .ok [("rw".toList, none), ("k".toList, some [])] := by decide
+
+theorem optlist_roundtrip_full_false : ¬ OptlistRoundtripFull := by
+  intro h
+  have hk : Stripped ['k'] := ⟨by intro c hc; simp at hc; subst hc; decide, by intro c hc; simp at hc; subst hc; decide⟩
+  have := h [','] '=' true [.flag "rw".toList, .kv 0 ['k'] 0 []] (by decide) (by decide)
+    (by
+      intro it hit
+      simp only [List.mem_cons, List.mem_nil_iff, or_false] at hit
+      rcases hit with rfl | rfl
+      · show '=' ∉ "rw".toList; decide
+      · exact ⟨by decide, hk, by decide, by intro h; cases h⟩)
+    (by decide)
+  revert this; decide
+
+/-- without a key/value separator (`kv_sep=None`) every option is a flag, whatever it contains -/
+theorem optlist_no_kv_sep (d : Str) (hd : d ≠ []) (sq : Bool) (opts : List Str) (hne : opts ≠ [])
+    (hsep : ∀ o ∈ opts, sepFree d o = true) :
+    optlistToDict (joinStr d opts) d none sq = .ok (fromPairs (opts.map (fun o => (o, none)))) := by
+  have hd' : d.isEmpty = false := by cases d with
+    | nil => exact absurd rfl hd
+    | cons _ _ => rfl
+  have hsplit := splitSep_joinStr d hd opts none hne hsep rfl
+  have hm : ∀ l : List Str, l.mapM (makeKv none sq) = .ok (l.map (fun o => (o, none))) := by
+    intro l; induction l with
+    | nil => rfl
+    | cons o l ih => simp only [List.mapM_cons, makeKv, ih, List.map_cons]; rfl
+  simp only [optlistToDict, hd', Bool.false_eq_true, if_false, hsplit, hm]
+  rfl
+
+example : optlistToDict "a=1|b|a=1".toList "|".toList none false = .ok [("a=1".toList, none), ("b".toList, none)] := by decide
+
+/-! ### IniConfigFile.set (round 10) -/
+
+/-- An assignment is read back: after `set(sec, opt, v)` on an existing section, `get` with any padding of the section
+    name and any spelling of the (stripped) option name returns `v`, and the option is reported as present. -/
+theorem ini_set_get (d d' : IniDict) (sec opt : Str) (v : Option Str) (h : iniSet d sec opt v = .ok d')
+    (sec' opt' : Str) (hs : strip sec' = strip sec) (ho : lower opt' = lower (strip opt)) :
+    iniGet d' sec' opt' = .ok v ∧ iniHasOption d' sec' opt' = true := by
+  unfold iniSet at h
+  cases hg : dictGet d (strip sec) with
+  | none => simp [hg] at h
+  | some hh =>
+    simp only [hg, Except.ok.injEq] at h
+    subst h
+    simp [iniGet, iniHasOption, hs, ho, dictGet_dictSet_self]
+
+example : iniSet [("main".toList, [("k".toList, some "v".toList)])] " main ".toList " K ".toList (some "w".toList)
+    = .ok [("main".toList, [("k".toList, some "w".toList)])] := by decide
+
+/-- Frame: an assignment changes nothing else — every other (section, option) answers as before, and the list of
+    sections is the same. -/
+theorem ini_set_frame (d d' : IniDict) (sec opt : Str) (v : Option Str) (h : iniSet d sec opt v = .ok d')
+    (sec' opt' : Str) (hne : strip sec' ≠ strip sec ∨ lower opt' ≠ lower (strip opt)) :
+    iniGet d' sec' opt' = iniGet d sec' opt' ∧ iniSections d' = iniSections d := by
+  unfold iniSet at h
+  cases hg : dictGet d (strip sec) with
+  | none => simp [hg] at h
+  | some hh =>
+    simp only [hg, Except.ok.injEq] at h
+    subst h
+    refine ⟨?_, ?_⟩
+    · by_cases e : strip sec' = strip sec
+      · have ho : lower opt' ≠ lower (strip opt) := by
+          rcases hne with h1 | h1
+          · exact absurd e h1
+          · exact h1
+        simp only [iniGet, e, dictGet_dictSet_self, hg]
+        rw [dictGet_dictSet_ne _ _ _ _ (fun x => ho x.symm)]
+      · simp only [iniGet]
+        rw [dictGet_dictSet_ne _ _ _ _ (fun x => e x.symm)]
+    · simp only [iniSections]
+      rw [keys_dictSet_present d (strip sec) _ (by simp [hg])]
+
+example : iniSet [("a".toList, [("k".toList, some "v".toList)]), ("b".toList, [])] "b".toList "New".toList none
+    = .ok [("a".toList, [("k".toList, some "v".toList)]), ("b".toList, [("new".toList, none)])] := by decide
+
+/-- an assignment into a section that does not exist is rejected (KeyError); nothing is created -/
+theorem ini_set_absent (d : IniDict) (sec opt : Str) (v : Option Str) (h : iniHasSection d sec = false) :
+    iniSet d sec opt v = .error .keyError := by
+  unfold iniHasSection at h
+  unfold iniSet
+  cases hg : dictGet d (strip sec) with
+  | none => rfl
+  | some _ => simp [hg] at h
+
+example : iniSet [("a".toList, [])] "nosuch".toList "k".toList none = .error .keyError := by decide
+
+/-! ### split_kv_pairs with filter_string (round 10) -/
+
+/-- `filter_string` selects PAIRS, by their active text only: a rendered document parsed with `filter_string = f` gives
+    the last-wins map of exactly those pairs in whose active line (comment cut off, stripped) `f` occurs — text inside
+    a trailing comment or a comment line never makes a line pass, for every `f` and both `use_partition` settings. -/
+theorem kv_filter_roundtrip (cc sep : Char) (hcs : cc ≠ sep) (hc : isSpace cc = false) (hs : isSpace sep = false)
+    (doc : List KvItem) (hdoc : ∀ it ∈ doc, KvItemOk cc sep it) (usePartition : Bool) (f : Str) :
+    splitKvPairs (renderKv cc sep doc) (some [cc]) (some f) [sep] usePartition
+      = .ok (fromPairs (kvPairsOf (doc.filter (kvKeeps cc sep f)))) := by
+  have := kv_fold_filter cc sep hcs hc hs usePartition f doc [] hdoc
+  simp only [splitKvPairs, getActiveLines, List.isEmpty_cons, Bool.false_eq_true, if_false, bind, Except.bind, pure, Except.pure]
+  unfold fromPairs
+  rw [← this]
+  rfl
+
+example : splitKvPairs (renderKv '#' '=' [.pair 0 "a".toList 1 1 "1".toList 1 (some " x = 2".toList), .comment 0 " x".toList,
+      .pair 0 "x".toList 0 0 "3".toList 0 none]) (some ['#']) (some ['x']) ['='] false = .ok [("x".toList, "3".toList)] := by decide
+
+/-! ### parse_fixed_table with empty_exception=True (round 10) -/
+
+/-- For EVERY input and every setting of the other arguments: where the lax parse (`empty_exception=False`) returns rows,
+    the strict parse either raises ParseException or returns exactly the same rows, and then no returned cell is empty. -/
+theorem fixed_strict_refines (lines hi : List Str) (sub : List (Str × Str)) (ti : List Str) (rows : List Dict)
+    (h : parseFixedTable lines hi sub ti false = .ok rows) :
+    parseFixedTable lines hi sub ti true = .error .parseException ∨
+    (parseFixedTable lines hi sub ti true = .ok rows ∧ ∀ r ∈ rows, ∀ p ∈ r, p.2 ≠ []) := by
+  unfold parseFixedTable at h ⊢
+  cases h1 : calcOffset lines hi false false with
+  | none => simp [h1] at h
+  | some first =>
+    simp only [h1] at h ⊢
+    cases h2 : lines[first]? with
+    | none => simp [h2] at h
+    | some header0 =>
+      simp only [h2] at h ⊢
+      cases h3 : calcColumnIndices (applySubst sub header0) (splitWs none (strip (applySubst sub header0))) 0 with
+      | none => simp [h3] at h
+      | some idx =>
+        simp only [h3] at h ⊢
+        revert h
+        generalize sliceLines lines (first + 1) _ = L
+        intro h
+        obtain ⟨rs, hlax, hstrict⟩ := fixedRows_strict (splitWs none (strip (applySubst sub header0))) (idxPairs idx) L
+        rw [hlax] at h
+        cases h
+        exact hstrict
+
+example : parseFixedTable ["A  B".toList, "1  2".toList, "3   ".toList] [] [] [] false
+      = .ok [[("A".toList, "1".toList), ("B".toList, "2".toList)], [("A".toList, "3".toList), ("B".toList, [])]] ∧
+    parseFixedTable ["A  B".toList, "1  2".toList, "3   ".toList] [] [] [] true = .error .parseException ∧
+    parseFixedTable ["A  B".toList, "1  2".toList] [] [] [] true = .ok [[("A".toList, "1".toList), ("B".toList, "2".toList)]] :=
+  ⟨by decide, by decide, by decide⟩
+
+/-- ... and where the lax parse fails (heading not found, no heading line), the strict parse fails in the same way -/
+theorem fixed_strict_error_agree (lines hi : List Str) (sub : List (Str × Str)) (ti : List Str) (e : Err)
+    (h : parseFixedTable lines hi sub ti false = .error e) : parseFixedTable lines hi sub ti true = .error e := by
+  unfold parseFixedTable at h ⊢
+  cases h1 : calcOffset lines hi false false with
+  | none => simpa [h1] using h
+  | some first =>
+    simp only [h1] at h ⊢
+    cases h2 : lines[first]? with
+    | none => simpa [h2] using h
+    | some header0 =>
+      simp only [h2] at h ⊢
+      cases h3 : calcColumnIndices (applySubst sub header0) (splitWs none (strip (applySubst sub header0))) 0 with
+      | none => simpa [h3] using h
+      | some idx =>
+        simp only [h3] at h ⊢
+        revert h
+        generalize sliceLines lines (first + 1) _ = L
+        intro h
+        obtain ⟨rs, hlax, _⟩ := fixedRows_strict (splitWs none (strip (applySubst sub header0))) (idxPairs idx) L
+        rw [hlax] at h
+        cases h
+
+example : parseFixedTable ["x".toList] ["NAME".toList] [] [] false = .error .valueError := by decide
 
 end IV.TextFormats
